@@ -1,7 +1,43 @@
-"""C13 - File-level obligations (see checks/file_common.py and DESIGN.md section 6)."""
+"""C13 - every object is released exactly once and sessions shut down cleanly.
+
+ * ownership: ObjectQueue's destructor deletes every queued object exactly once (loop contract, C16 job relabelled);
+   the two codec-side transfer functions hand over or delete the object they own exactly once on every path;
+ * session state machine as an inductive invariant: open (already open / cannot open / success), close (not open /
+   read session / write session), ~File == close; good()/eof() are the queue's flags; both workers started once and
+   joined once.  Because each operation preserves the invariant the clauses hold for call histories of any length.
+Histories that re-open a closed File are outside the statement ("one successful open").
+"""
 import sys, os
 sys.path.insert(0, os.path.dirname(os.path.dirname(os.path.abspath(__file__))))
 from run import core
-from checks import file_common
+from checks import file_common, c16
+
+
+def extra(info):
+    js = []
+    for j in c16.jobs():
+        if j.name.endswith('dtor'):
+            js.append(core.Job(j.name.replace('C16_', 'C13_'), j.source.replace('"C16/ObjectQueue/dtor', '"C13/ObjectQueue/dtor'),
+                               route=j.route, flags=j.flags, functions=j.functions, canary_ids=j.canary_ids, timeout=j.timeout,
+                               loop_contracts=True, expect_kinds=j.expect_kinds,
+                               labels={k: v.replace('C16/', 'C13/') for k, v in j.labels.items()}))
+    fns = file_common.file_functions()
+    src = file_common.PRE + 'int g_close_calls;\nvoid File_close(struct File *self) { g_close_calls++; }\n' + \
+        'void ObjectQueue_dtor(struct ObjectQueue *q) { } void UncompressedFile_dtor(struct UncompressedFile *u) { } void CompressedFile_dtor(struct CompressedFile *c) { }\nvoid FileStatistics_dtor(struct FileStatistics *s) { }\n' + \
+        file_common.need(fns, 'File_dtor') + '''
+void harness(void)
+{
+    struct File f; reset_ghost(&f); g_close_calls = 0;
+    File_dtor(&f);
+    __CPROVER_assert(g_close_calls == 1, "C13/File/dtor/destruction-closes-the-session-(once)");
+    __CPROVER_assert(0, "canary");
+}
+'''
+    js.append(core.Job('C13_File_dtor', src, route='harness', flags=file_common.FLAGS, functions=['File::~File'], canary_ids=['harness.assertion.2'], timeout=120))
+    return js
+
+
 if __name__ == '__main__':
-    core.main_wrapper(lambda: file_common.run_property('C13'))
+    core.main_wrapper(lambda: file_common.run_property('C13', extra_jobs=extra, assumptions=[
+        'std::thread is modelled by ghost handles (started / joined); std::fstream::open may fail or succeed',
+        'shared_ptr<LogContainer> reference counting is not modelled (containers are owned by the stream list)']))
